@@ -38,6 +38,7 @@ class Operand(aob.AbstractObject):
         return type(self)(selector(a, b))
 
     def _compose_narop(self, selector, *args):
+        args = [x.value if isinstance(x, Operand) else x for x in args]
         return type(self)(selector(self.value, *args))
 
 
